@@ -136,6 +136,8 @@ class Program:
         self.j = json.loads(text)
         self.inline_report = None
         self.alias_report = []
+        self.closure_report = []
+        self._split_duplicate_keys()
         if config != "fixture":
             from .inline import inline_new_helpers
             import os as _os
@@ -153,6 +155,13 @@ class Program:
                     sigs = {}
                 self.alias_report = alias_moved(self.j, known, sigs)
                 self.inline_report = inline_new_helpers(self.j, known)
+                try:
+                    kc = set(json.load(open(_os.path.join(_os.path.dirname(kp), "known_closures.json"))))
+                except OSError:
+                    kc = None
+                if kc is not None:
+                    from .closures import expand_closures
+                    self.closure_report = expand_closures(self.j, kc)
         # crate structs that are not part of the reviewed inventory (a private result struct introduced instead of a tuple)
         # are read as tuples: field k of the struct is component k
         self.new_structs = set()
@@ -185,6 +194,39 @@ class Program:
         if self._vp0 is None:
             self._vp0 = VP(self)
         return self._vp0
+
+    def _split_duplicate_keys(self):
+        """two impls of one trait for one type that differ only in what the key abbreviates (`Extend<(I, P)>` and a new
+        `Extend<(&I, &P)>`): the reviewed one (by its full path) keeps the key, the other gets a suffix"""
+        import os as _os2
+        by = {}
+        for f in self.j["fns"]:
+            if f.get("kind") != "Closure":
+                by.setdefault(f["key"], []).append(f)
+        dups = {k: v for k, v in by.items() if len(v) > 1}
+        self.renamed_duplicates = []
+        if not dups:
+            return
+        try:
+            sigs = json.load(open(_os2.path.join(_os2.path.dirname(_os2.path.dirname(_os2.path.abspath(__file__))), "rules", "known_signatures.json")))
+        except OSError:
+            sigs = {}
+        for k, fs in dups.items():
+            want = (sigs.get(k) or {}).get("path")
+            keep = next((f for f in fs if want and f.get("path") == want), fs[0])
+            n = 1
+            for f in fs:
+                if f is keep:
+                    continue
+                n += 1
+                newk = "%s#%d" % (k, n)
+                oldpath = f.get("path") or ""
+                f["key"] = newk
+                for g in self.j["fns"]:
+                    if g.get("kind") == "Closure" and (g.get("path") or "").startswith(oldpath + "::") and g.get("parent_fn", "").startswith(k):
+                        g["key"] = newk + g["key"][len(k):] if g["key"].startswith(k) else g["key"]
+                        g["parent_fn"] = newk + g["parent_fn"][len(k):] if g["parent_fn"].startswith(k) else g["parent_fn"]
+                self.renamed_duplicates.append("%s (%s) -> %s" % (k, oldpath, newk))
 
     def fn(self, key):
         return self.fns.get(key)
